@@ -31,6 +31,9 @@ DRV_FACT_NAMES = ["rejectsEmptyKey", "rejectsLongKey", "flushCmp", "flushAtCount
 def drv_args(own_facts):
     allf = all_storage_facts()
     allf.update(own_facts)
+    # the model's flag means "the API caller learns about a refused key": by Write itself or by validation above it
+    if allf.get("apiValidatesKeys") == "yes":
+        allf["chronSurfacesError"] = "yes"
     return ["%s=%s" % (k, allf.get(k, "unknown")) for k in DRV_FACT_NAMES]
 
 
@@ -133,7 +136,7 @@ class HistoryOracle:
         return None
 
 
-def history_oracle(ops, impl):
+def history_oracle(ops, impl, api_validates=False):
     """Walks op lines + implementation replies of the C01/C29 storage domain.
     Returns a list of (line index, what, signature-or-None)."""
     bad = []
@@ -199,6 +202,8 @@ def history_oracle(ops, impl):
                 if o.dropped_invalid and not o.pending:
                     # known shape: exactly the unencodable keys are missing, everything else is there
                     sig = "C01-chronicler-drops-refused-entry" if got == index_digest(o.valid) else None
+                    if sig and api_validates:
+                        continue   # below the API: the gateway refuses such keys, a direct Write of one is not an API history
                 bad.append((i, "after `cload`: a fresh chronicler loaded %s, but Write was handed (and reported nothing about) %s"
                             % (got[:60], sorted(cands)[:3]), sig))
         elif f[0] in ("load", "raw"):
